@@ -31,8 +31,11 @@ def check(ctx, r, rid="R8"):
         ("one file per locale", CF("Locales", locales=L(_loc("en", TEXTS), _loc("fr", []), _loc("pt-BR", ["x"])), keys=A("keys")),
          {("out", "en.json"): TEXTS, ("out", "fr.json"): [], ("out", "pt-BR.json"): ["x"]}),
         ("namespaces", CF("NameSpaces", namespaces=L(CF("Namespace", key=CF("Key", name=S("home")), locales=L(_loc("en", ["h", TEXTS[1]]), _loc("fr", []))),
-                                                     CF("Namespace", key=CF("Key", name=S("my-ns")), locales=L(_loc("en", []), _loc("fr", ["o"])))), keys=A("keys")),
-         {("out", "home", "en.json"): ["h", TEXTS[1]], ("out", "home", "fr.json"): [], ("out", "my-ns", "en.json"): [], ("out", "my-ns", "fr.json"): ["o"]}),
+                                                     CF("Namespace", key=CF("Key", name=S("my-ns")), locales=L(_loc("en", []), _loc("fr", ["o"]))),
+                                                     # a namespace without any text (numbers / variables only): its files are `[]`, and they exist - the client fetches them
+                                                     CF("Namespace", key=CF("Key", name=S("nums")), locales=L(_loc("en", []), _loc("fr", [])))), keys=A("keys")),
+         {("out", "home", "en.json"): ["h", TEXTS[1]], ("out", "home", "fr.json"): [], ("out", "my-ns", "en.json"): [], ("out", "my-ns", "fr.json"): ["o"],
+          ("out", "nums", "en.json"): [], ("out", "nums", "fr.json"): []}),
     ]
     n = 0
     for label, locales, want in worlds:
@@ -84,3 +87,55 @@ def check(ctx, r, rid="R8"):
     if not r.violations:
         r.inst("TranslationsInfos::get_translations -> write_to_dir", "%d files over 2 project layouts (locales with an empty table, a namespace and a locale with `-` in the name, strings with quotes, "
                "backslashes, control characters, no-break / zero-width spaces, an astral character): `<dir>/[<namespace>/]<locale>.json` for every locale, each valid JSON decoding to the table" % n)
+
+
+def check_endpoint(ctx, r, rid="R8"):
+    """the lazily loading client (dynamic_load + csr) fetches `translations-path` with `{locale}` / `{namespace}` filled in: evaluated
+    (create_locale_type_inner, rules/absint.py) for a plain and a hyphenated locale, with and without a namespace - the file asked for is
+    the one `write_to_dir` writes, `[<namespace>/]<locale name as configured>.json`"""
+    import re
+    from rules.absint import TOK, I
+    ast = ctx.ast
+    MM = "leptos_i18n_macro/src/load_locales/mod.rs"
+    fn = ast.fn(MM, "create_locale_type_inner")
+    if fn is None:
+        r.missing("create_locale_type_inner")
+        return
+    absint.set_program(ast)
+    K = lambda n: CF("Key", name=S(n), ident=TOK(n.replace("-", "_")))  # noqa: E731
+
+    def loc(n, k):
+        return CF("Locale", name=K(n), top_locale_name=K(n), keys=L(), strings=L(*[S("s%d" % i) for i in range(k)]), top_locale_string_count=I(k))
+
+    def cfg(t):
+        t = t.replace(" ", "")
+        if 'feature="ssr"' in t and 'not(feature="ssr")' not in t and 'notfeature="ssr"' not in t:
+            return False
+        if "show_keys_only" in t or "hydrate" in t:
+            return False
+        return "dynamic_load" in t or "csr" in t
+    n = 0
+    for is_top in (True,):          # (the types of nested key groups have no table of their own: nothing to fetch)
+        for ns in (None, "my-ns"):
+            ev = AEval(funcs=absint.file_funcs(ast, MM), consts={"IS_TOP": ("bool", is_top)})
+            ev.cfg = cfg
+            ev.builtins.update({"unwrap_at": lambda rv, a: rv[2][0] if rv[0] == "ctor" and rv[2] else rv})
+            ev.path_builtins = {"Key::new": lambda a: C("Some", K(a[0][1]))}
+            ev.totokens = lambda x: (absint.fields_of(x)["ident"][1] if x[0] == "ctor" and x[1] == "Key" else None)
+            known = {"type_ident": TOK("TypeI"), "parent_ident": C("None"), "enum_ident": TOK("Locale"), "translation_unit_enum_ident": TOK("Units"), "locales": L(loc("en", 2), loc("pt-BR", 1)),
+                     "keys": L(), "key_path": A("kp"), "interpolate_display": ("bool", False), "namespace_name": C("Some", S(ns)) if ns else C("None"),
+                     "translations_uri": C("Some", S("i18n/{namespace}/{locale}.json"))}
+            missing = [p_ for p_ in fn.params() if p_ not in known]
+            if missing:
+                raise absint.Unknown("create_locale_type_inner has parameters the model does not know: %s" % missing)
+            got = ev.run_fn(fn, [known[p_] for p_ in fn.params()])
+            if isinstance(got, str) or got[0] != "tok":
+                raise absint.Unknown("create_locale_type_inner (dynamic_load + csr): %s" % (got if isinstance(got, str) else absint.fmt(got)[:80]))
+            eps = re.findall(r'endpoint = "([^"]*)"', got[1])
+            want = ["i18n/%s/%s.json" % (ns or "", l_) for l_ in ("en", "pt-BR")]
+            n += 1
+            if eps != want:
+                r.viol("%s:create_locale_type_inner#endpoint" % rid, "with translations-path `i18n/{namespace}/{locale}.json`, namespace %s and locales [en, pt-BR] the generated client fetches %s; the build helper "
+                       "writes `[<namespace>/]<locale name>.json`, i.e. %s" % (ns, eps, want), file=MM, line=fn.line)
+                return
+    r.inst("create_locale_type_inner (dynamic_load + csr)", "%d generated units: the endpoint is translations-path with {locale} = the locale's configured name (`pt-BR`, not its identifier) and {namespace} = the namespace's name" % n)
